@@ -114,11 +114,11 @@ theorem isolation_handle {s : Srv} (h : Inv s) (ho : s.out = []) (e : Ev) {A : C
         refine ⟨?_, fun B hne => SameFor.closeLike h hne h1 cl rfl⟩
         simp [afterDeliver, Srv.emit, ho, clientReplies, Out.reply?, Reply.conn]
     · rw [handleRequest_notMine h hc ht] at hs
-      obtain ⟨s'', e2, p⟩ := handleDisconnect_post (h.emit (.errorTo c 0)) (c := c) (ts := ts) hc
+      obtain ⟨s'', e2, p⟩ := handleDisconnect_post (h.emit (.errorNow c 0)) (c := c) (ts := ts) hc
       rw [e2] at hs; cases hs
       refine ⟨?_, fun B hne => ?_⟩
       · rw [p.replies]; simp [Srv.emit, ho, clientReplies, Out.reply?, Reply.conn]
-      · have := SameFor.disc (h.emit (.errorTo c 0)) hne p
+      · have := SameFor.disc (h.emit (.errorNow c 0)) hne p
         exact ⟨this.clients, this.tasks⟩
   | disconnect c =>
     simp only [Ev.client, Option.some.injEq] at hA; subst hA
